@@ -188,6 +188,47 @@ func c10EmptyTree(kind int) *c10Tree {
 	return t
 }
 
+// c10BigTree: outputs of a given size, so that every entry point hands the writer tens of kilobytes to megabytes.
+// An implementation that writes large outputs in pieces (chunked writes, a buffered writer flushed at the end, a
+// copy loop) has error paths that no small tree reaches: the writer-error enumeration of c10Case then fails every
+// one of those writes in turn. The damaged variant ends in a stray closing token, so that the formatter rejects it
+// only after the whole text has been produced: nothing of it may have reached the writer.
+func c10BigTree(target int, damaged bool) *c10Tree {
+	t := &c10Tree{desc: fmt.Sprintf("size ladder: at least %d bytes of output", target), valid: !damaged}
+	if damaged {
+		t.desc += " (damaged at the very end)"
+	}
+	n := target/55 + 2
+	line := func(i int) *jen.Statement {
+		return jen.Qual("fmt", "Println").Call(jen.Lit(strings.Repeat("x", 40)), jen.Lit(i))
+	}
+	t.build = func(int) (*jen.File, *jen.Statement, *jen.Group) {
+		f := jen.NewFile("big")
+		for i := 0; i < n; i++ {
+			f.Func().Id(fmt.Sprintf("fn%07d", i)).Params().Block(line(i))
+		}
+		st := jen.Func().Id("host").Params().BlockFunc(func(g *jen.Group) {
+			for i := 0; i < n; i++ {
+				g.Add(line(i))
+			}
+		})
+		var grp *jen.Group
+		jen.CustomFunc(jen.Options{Multi: true}, func(g *jen.Group) {
+			for i := 0; i < n; i++ {
+				g.Var().Id(fmt.Sprintf("v%07d", i)).Op("=").Lit(strings.Repeat("y", 40))
+			}
+			grp = g
+		})
+		if damaged {
+			f.Op("}")
+			st.Op(")")
+			grp.Op("}")
+		}
+		return f, st, grp
+	}
+	return t
+}
+
 func c10TreeFromRecipe(seed int64) *c10Tree {
 	b := c02Build(seed, true)
 	if len(b.frags) == 0 {
@@ -534,6 +575,21 @@ func c10Trees(r *mon.Run) []func() *c10Tree {
 		seed := mon.DeriveSeed(r.Seed, "C10/recipe", int64(i))
 		mk = append(mk, func() *c10Tree { return c10TreeFromRecipe(seed) })
 	}
+	// the size ladder (appended last, so that the indices of the trees above do not move): sizes on both sides of
+	// the usual buffer thresholds (4 KiB bufio, 32 KiB io.Copy, 64 KiB pipe, 1 MiB)
+	sizes := []int{3 << 10, 5 << 10, 9 << 10, 17 << 10, 33 << 10, 40 << 10, 66 << 10, 130 << 10, 520 << 10}
+	if r.Thorough() {
+		sizes = append(sizes, 1100<<10, 2100<<10, 4300<<10)
+	}
+	for _, sz := range sizes {
+		sz := sz
+		mk = append(mk, func() *c10Tree { return c10BigTree(sz, false) })
+	}
+	for _, sz := range []int{40 << 10, 130 << 10} {
+		sz := sz
+		mk = append(mk, func() *c10Tree { return c10BigTree(sz, true) })
+	}
+	r.Put("size_ladder_bytes", sizes)
 	return mk
 }
 
